@@ -1306,15 +1306,11 @@ func doWalk(cs *connState, ref *fidRef, names []string, getattr bool) (qids []QI
 	// validate anything since this is always permitted.
 	if len(names) == 0 {
 		var sf File // Temporary.
-		if err := ref.safelyReadParent(func() (err error) {
-			// The clone is a read-class call on ref's own path, not only
-			// on its parent's: exclude write-class calls there as well
-			// (parent before child; the root is its own parent).
-			if !ref.hasParent() {
-				ref.pathNode.opMu.RLock()
-				defer ref.pathNode.opMu.RUnlock()
-			}
-
+		// The clone is a read-class call on ref's own path. Its parent's
+		// path need not be locked: the rename lock keeps ref.parent in
+		// place, and whatever removes this entry (Tunlinkat, Tremove)
+		// write-locks the entry's own path as well.
+		if err := ref.safelyRead(func() (err error) {
 			// Clone the single element.
 			qids, sf, valid, attr, err = walkOne(nil, ref.file, nil, getattr)
 			if err != nil {
